@@ -395,12 +395,27 @@ func runStoreLog(r *rng, dim int, log []stChange, st *stats, caseIdx int) stCase
 	defer p.close()
 	c := stCase{Dim: dim, Log: log}
 	for _, ch := range log {
+		_, _, dBefore := p.contents()
 		o := p.apply(r, ch)
 		c.Outs = append(c.Outs, o)
 		_, cnt, d := p.contents()
 		c.Counts = append(c.Counts, cnt)
 		if st != nil {
 			st.count("kind:" + ch.Kind)
+			// a refused operation changes nothing - not the items, not the counters, and not the graph either (a vertex
+			// linked in and left behind is returned by later searches)
+			distinctIds := map[string]bool{}
+			for _, it := range ch.Items {
+				distinctIds[it.Id] = true
+			}
+			refused := (!o.Batch && (o.Err == "exists" || o.Err == "notfound")) || (o.Batch && len(ch.Items) > 0 && len(o.Errs) == len(distinctIds) && len(distinctIds) == len(ch.Items))
+			if refused && o.Crash == "" && o.Fatal == "" {
+				st.count("refused-op-compared")
+				if fmt.Sprintf("%+v", dBefore) != fmt.Sprintf("%+v", d) {
+					st.ImplFailures = append(st.ImplFailures, implFailure{Case: caseIdx, What: fmt.Sprintf("a refused %s (every item answered with an error) changed the index: %d vertices / entry %d before, %d vertices / entry %d after", ch.Kind, len(dBefore.Vertices), dBefore.Entry, len(d.Vertices), d.Entry),
+						Key: "refused-op-changed-state:" + ch.Kind, Input: c})
+				}
+			}
 			if o.Crash != "" || o.Fatal != "" {
 				st.count("crash-or-fatal")
 				st.ImplFailures = append(st.ImplFailures, implFailure{Case: caseIdx, What: "apply of a well-formed entry crashed or returned an error: " + o.Crash + o.Fatal,
